@@ -1070,6 +1070,12 @@ def run_history(ctx, cache_type, meta, hours, nsteps, up, clock, script=None, li
                 else:
                     mtime_base += rng.choice([1, 2, 60])
                     mtime = Fraction(mtime_base)
+            # an external writer cannot stamp a file later than "now": the file system's real clock for file caches, the
+            # cache's (shimmed) clock for sqlite - otherwise a later store by the cache itself would look older
+            limit = Fraction(real_time.time()) - Fraction(1, 20) if cache_type == 'file' else Fraction(int(now))
+            if mtime > limit:
+                mtime_base += rng.choice([1, 2, 60])
+                mtime = Fraction(mtime_base) + (Fraction(rng.randrange(8), 8) if cache_type == 'file' else 0)
             hist.do_rewrite(key, data, mtime)
             ctx.count('app:event=rewrite')
             last_key = key
